@@ -644,18 +644,39 @@ def _r6(ctx, pkg):
     # tree, procedures are their statements); Network.write stays the primitive the rule is about
     fn = pkg.expanded("Network", "export", keep=("write",))
     w = [c for c in ast.walk(fn) if isinstance(c, ast.Call) and ast.unparse(c.func) == "self.write"]
-    # by role: the first argument is a local whose value is <export dir> / 'reactions.naunet'
-    arg0 = w[0].args[0] if len(w) == 1 and w[0].args else None
-    val0 = [ast.unparse(n.value) for n in ast.walk(fn) if isinstance(n, ast.Assign) and isinstance(arg0, ast.Name) and any(isinstance(t, ast.Name) and t.id == arg0.id for t in n.targets)]
-    ok = len(w) == 1 and len(w[0].args) >= 2 and ast.unparse(w[0].args[1]) == "'naunet'" and len(val0) == 1 and re.fullmatch(r"\w+ / 'reactions\.naunet'", val0[0]) is not None
-    # positive evidence of a wrong export: the format argument is another literal, or the file name is another literal
-    wrong_fmt = len(w) == 1 and len(w[0].args) >= 2 and isinstance(w[0].args[1], ast.Constant) and w[0].args[1].value != "naunet"
-    wrong_name = len(w) == 1 and len(val0) == 1 and re.fullmatch(r"\w+ / '[^']*'", val0[0]) is not None and not val0[0].endswith("/ 'reactions.naunet'")
-    if ok or wrong_fmt or wrong_name:
-        ctx.check(ok, "R6", "Network.export:reaction-file", (NET, fn.lineno), "export writes path/'reactions.naunet' in the 'naunet' format", found=ast.unparse(w[0]) if w else "")
+    # by VALUE: the arguments of that call as use-def expansion gives them -- the file is <export dir> joined with a literal name
+    # (`dir / "name"`, dir.joinpath("name"), os.path.join(dir, "name"), Path(dir, "name"); through a local, a module constant or inline),
+    # the format a literal (keyword or positional)
+    rmod = ratemodel(ctx.tree)
+    wfacts = [f for f in Flow(fn, NET, consts=rmod.module_consts(NET)).facts if f.kind == "call" and f.target == "write" and f.value[0] == "meth" and f.value[1] == SELF]
+    fname = fmt = None
+    shown = ""
+    if len(w) == 1 and len(wfacts) == 1:
+        args, kws = wfacts[0].value[3], dict(wfacts[0].value[4])
+        wparams = [a_.arg for a_ in pkg.method("Network", "write").args.args][1:]
+        given = dict(zip(wparams, args))
+        given.update({k_: v_ for k_, v_ in kws.items() if k_ in wparams and k_ not in given})
+        a0 = simp(given[wparams[0]]) if wparams and wparams[0] in given else None
+        a1 = simp(given[wparams[1]]) if len(wparams) > 1 and wparams[1] in given else None
+        shown = f"self.write({show(a0) if a0 else '?'}, {show(a1) if a1 else '?'})"
+        if a0 is not None:
+            last = None
+            if a0[0] == "binop" and a0[1] == "Div":
+                last = a0[3]
+            elif a0[0] == "meth" and a0[2] == "joinpath" and a0[3] and not a0[4]:
+                last = a0[3][-1]
+            elif a0[0] == "call" and a0[1] in (("attr", ("attr", ("global", "os"), "path"), "join"), ("global", "Path"), ("global", "PurePath")) and len(a0[2]) >= 2 and not a0[3]:
+                last = a0[2][-1]
+            if last is not None and last[0] == "const" and isinstance(last[1], str):
+                fname = last[1]
+        if a1 is not None and a1[0] == "const" and isinstance(a1[1], str):
+            fmt = a1[1]
+    if fname is not None and fmt is not None:
+        ctx.check(fname == "reactions.naunet" and fmt == "naunet", "R6", "Network.export:reaction-file", (NET, fn.lineno), "export writes path/'reactions.naunet' in the 'naunet' format",
+                  expected="self.write(<dir> / 'reactions.naunet', 'naunet')", found=shown)
     else:
         ctx.unrec("R6", "Network.export:reaction-file", (NET, fn.lineno), f"cannot see which file / format Network.export writes the reactions to ({len(w)} self.write calls"
-                  + (f": {ast.unparse(w[0])[:80]}, path = {val0[:2]}" if w else "") + ")")
+                  + (f": {shown}" if shown else "") + ")")
     # ... on EVERY path that goes on to write the configuration and the sources (must-pass-through): the exchange file and the
     # generated code describe the same network also when the project directory already exists
     if len(w) == 1:
@@ -937,3 +958,6 @@ MUTANTS.append({"name": "writer-fill-count-by-keyword-wrong", "file": RFILE, "ol
 BENIGN.append({"name": "writer-columns-by-percent-format", "file": RFILE, "old": '                    f"{self.alpha:10.3e}",\n                    f"{self.beta:10.3e}",\n',
                "new": '                    "%10.3e" % self.alpha,\n                    "%10.3e" % (self.beta,),\n'})
 MUTANTS.append({"name": "writer-percent-format-fixed-point", "file": RFILE, "old": '                    f"{self.alpha:10.3e}",\n', "new": '                    "%10.3f" % self.alpha,\n', "rules": ["R2"]})
+
+BENIGN.append({"name": "export-file-joined-inline", "file": NET, "old": '        self.write(reaction_file, "naunet")\n', "new": '        self.write(format="naunet", filename=path.joinpath("reactions.naunet"))\n'})
+MUTANTS.append({"name": "export-inline-other-name", "file": NET, "old": '        self.write(reaction_file, "naunet")\n', "new": '        self.write(format="naunet", filename=path.joinpath("reaction.naunet"))\n', "rules": ["R6"]})
